@@ -391,7 +391,7 @@ func init() {
 		// success, no low store may replace it in any interleaving.
 		barrierLost := int64(0)
 		{
-			tb := search.NewTranspositionTable(context.Background(), 1<<22) // 131072 slots, one per round
+			tb := search.NewTranspositionTable(context.Background(), 1<<22)  // 131072 slots, one per round
 			tb2 := search.NewTranspositionTable(context.Background(), 1<<23) // 262144 slots, one per writer and round
 			nw := writers
 			if nw < 3 {
